@@ -510,6 +510,7 @@ fn twin_c17() -> R {
         vec![("transfer-encoding", b"chunked"), ("content-length", b"abc")],
         vec![("transfer-encoding", b"chunked"), ("content-length", b"5")],
         vec![("transfer-encoding", b"gzip")],
+        vec![("transfer-encoding", b"deflate")],
     ];
     for m in &methods {
         for v in &versions {
@@ -786,7 +787,9 @@ fn twin_c06() -> R {
     let methods = [Method::GET, Method::HEAD, Method::POST, Method::CONNECT, Method::OPTIONS];
     let statuses: Vec<u16> = if big() { (100..=999).collect() } else { vec![100, 101, 199, 200, 204, 205, 299, 300, 301, 304, 305, 399, 400, 404, 500, 999] };
     let cls: [Option<&str>; 5] = [None, Some("0"), Some("7"), Some("18446744073709551615"), Some("7x")];
-    let tes: [(Option<&str>, bool); 7] = [(None, false), (Some("chunked"), true), (Some("ChUnKeD"), true), (Some("gzip, chunked"), true), (Some("gzip,chunked"), true), (Some("gzip"), false), (Some("chunkedx"), false)];
+    // ("deflate" has the length of "chunked": the comparison is entered, not cut short by the length test)
+    let tes: [(Option<&str>, bool); 9] = [(None, false), (Some("chunked"), true), (Some("ChUnKeD"), true), (Some("gzip, chunked"), true), (Some("gzip,chunked"), true), (Some("gzip"), false), (Some("chunkedx"), false),
+        (Some("deflate"), false), (Some("chunkeD, deflate"), true)];
     for m in &methods {
         for &st in &statuses {
             for minor in [0u8, 1] {
@@ -1598,27 +1601,38 @@ fn twin() {
             continue;
         }
         let t0 = std::time::Instant::now();
-        // a panic raised INSIDE the library (location under src/) on input the public API accepts is a failing
-        // input like any other; a panic of the twin's own code is a harness error and is left to propagate
-        let loc = std::sync::Arc::new(std::sync::Mutex::new(String::new()));
-        let loc2 = loc.clone();
-        std::panic::set_hook(Box::new(move |info| {
-            let l = info.location().map(|l| format!("{}:{}", l.file(), l.line())).unwrap_or_default();
-            let msg = info.payload().downcast_ref::<&str>().map(|s| s.to_string()).or_else(|| info.payload().downcast_ref::<String>().cloned()).unwrap_or_default();
-            *loc2.lock().unwrap() = format!("{} {}", l, msg);
-        }));
-        let res = std::panic::catch_unwind(f);
-        let _ = std::panic::take_hook();
-        let res = match res {
-            Ok(r) => r,
-            Err(p) => {
-                let l = loc.lock().unwrap().clone();
-                if l.starts_with("src/") || l.contains("/src/") && !l.contains("verif_twin") {
-                    Err(format!("the library panicked at {}", l))
-                } else {
-                    std::panic::resume_unwind(p)
+        // Each twin runs in its own thread with a watchdog: a run that does not come back is a hang of the library
+        // on input the public API accepts (C12) and is reported as a failing input, the remaining twins still run.
+        // A panic raised INSIDE the library (location under src/) is a failing input like any other; a panic of the
+        // twin's own code is a harness error.
+        let limit = std::time::Duration::from_secs(if big() { 1800 } else { 300 });
+        let (tx, rx) = std::sync::mpsc::channel();
+        std::thread::spawn(move || {
+            let loc = std::sync::Arc::new(std::sync::Mutex::new(String::new()));
+            let loc2 = loc.clone();
+            std::panic::set_hook(Box::new(move |info| {
+                let l = info.location().map(|l| format!("{}:{}", l.file(), l.line())).unwrap_or_default();
+                let msg = info.payload().downcast_ref::<&str>().map(|s| s.to_string()).or_else(|| info.payload().downcast_ref::<String>().cloned()).unwrap_or_default();
+                *loc2.lock().unwrap() = format!("{} {}", l, msg);
+            }));
+            let res = std::panic::catch_unwind(f);
+            let res: Result<R, String> = match res {
+                Ok(r) => Ok(r),
+                Err(_) => {
+                    let l = loc.lock().unwrap().clone();
+                    if (l.starts_with("src/") || l.contains("/src/")) && !l.contains("verif_twin") {
+                        Ok(Err(format!("the library panicked at {}", l)))
+                    } else {
+                        Err(l)
+                    }
                 }
-            }
+            };
+            let _ = tx.send(res);
+        });
+        let res: R = match rx.recv_timeout(limit) {
+            Ok(Ok(r)) => r,
+            Ok(Err(l)) => panic!("twin {} panicked in its own code: {}", name, l),
+            Err(_) => Err(format!("the run did not come back within {} s: the library hangs on an input of this twin", limit.as_secs())),
         };
         match res {
             Ok((ev, dn)) => println!("TWIN {} {} evaluations={} distinct={} ms={}", ids.join("+"), name, ev, dn, t0.elapsed().as_millis()),
